@@ -5,6 +5,8 @@ import (
 	"fmt"
 	"os"
 
+	"xv/impl"
+
 	"xv/adoc"
 	"xv/refxp"
 	"xv/run"
@@ -122,6 +124,9 @@ func C01(c *run.Check) {
 		}
 	}
 	r.runGrid(len(small), func(i int) *adoc.Doc { return gen(small[i]) }, two, nil)
+	// the structural laws of the statement, checked on the implementation's own
+	// answers (independently of the reference evaluator)
+	c01Laws(c, len(jobs), gen)
 	for i := 5; i < len(jobs); i += 1777 {
 		c.Sample(map[string]string{"doc": gen(i).String(), "context": "every node", "expr": singles[(i/7)%len(singles)].Text})
 	}
@@ -155,4 +160,96 @@ func init() {
 		}
 		return replayX(x, false)
 	}
+}
+
+// c01Laws: for every non-attribute, non-namespace node the ancestor,
+// descendant, following, preceding and self axes partition all such nodes;
+// every axis is the converse of its dual; the ancestor axes reach the root;
+// the root has no parent and no siblings while its children do have siblings;
+// an absolute path selects the same set from every context node.
+func c01Laws(c *run.Check, n int, gen func(i int) *adoc.Doc) {
+	axes := []string{"ancestor", "descendant", "following", "preceding", "self", "child", "parent", "following-sibling", "preceding-sibling", "ancestor-or-self"}
+	duals := [][2]string{{"child", "parent"}, {"descendant", "ancestor"}, {"following", "preceding"}, {"following-sibling", "preceding-sibling"}}
+	run.ParallelW((n+63)/64, func(w, ci int) {
+		if c.Violations() > 0 || c.TimeUp() {
+			return
+		}
+		cache := newExprCache()
+		for di := ci * 64; di < min((ci+1)*64, n); di++ {
+			d := gen(di)
+			b, err := impl.Bind(d)
+			if err != nil {
+				return
+			}
+			rd := b.Doc
+			sets := map[string]map[int]map[int]bool{} // axis -> context id -> member ids
+			for _, ax := range axes {
+				g, _ := cache.get(ax + "::node()")
+				sets[ax] = map[int]map[int]bool{}
+				for _, x := range rd.Nodes {
+					c.Evaluations.Add(1)
+					o := ExecImpl(b, b.ToCur[x], g, nil)
+					m := map[int]bool{}
+					for _, id := range o.Nodes {
+						m[id] = true
+					}
+					sets[ax][x.ID] = m
+				}
+			}
+			fail := func(msg string, x *adoc.Node) {
+				c.Violation(MakeXCase("C01/law", rd, x, msg, EnvSpec{}, Outcome{}, Outcome{}), fmt.Sprintf("[law] %s; context %s in %s", msg, x.Describe(), rd.String()))
+			}
+			gAbs, _ := cache.get("//node() | //@* | //namespace::*")
+			var absRef string
+			for _, x := range rd.Nodes {
+				o := ExecImpl(b, b.ToCur[x], gAbs, nil)
+				key := fmt.Sprint(sortedCopy(o.Nodes))
+				if absRef == "" {
+					absRef = key
+				} else if key != absRef {
+					fail("the absolute path //node() | //@* | //namespace::* selects a different set from this context node", x)
+					return
+				}
+				if !x.IsTreeNode() {
+					continue
+				}
+				for _, y := range rd.Nodes {
+					if !y.IsTreeNode() {
+						continue
+					}
+					cnt := 0
+					for _, ax := range []string{"ancestor", "descendant", "following", "preceding", "self"} {
+						if sets[ax][x.ID][y.ID] {
+							cnt++
+						}
+					}
+					if cnt != 1 {
+						fail(fmt.Sprintf("%s lies on %d of the five partitioning axes (ancestor, descendant, following, preceding, self)", y.Describe(), cnt), x)
+						return
+					}
+					for _, du := range duals {
+						if sets[du[0]][x.ID][y.ID] != sets[du[1]][y.ID][x.ID] {
+							fail(fmt.Sprintf("%s::node() contains %s but %s::node() from there does not lead back (or vice versa)", du[0], y.Describe(), du[1]), x)
+							return
+						}
+					}
+				}
+				if x.Kind != adoc.Root && !sets["ancestor"][x.ID][0] {
+					fail("the root is not on the ancestor axis", x)
+					return
+				}
+			}
+			root := rd.Root
+			if len(sets["parent"][0]) != 0 || len(sets["following-sibling"][0]) != 0 || len(sets["preceding-sibling"][0]) != 0 {
+				fail("the root node has a parent or siblings", root)
+				return
+			}
+			for i, ch := range root.Children {
+				if len(sets["following-sibling"][ch.ID]) != len(root.Children)-1-i || len(sets["preceding-sibling"][ch.ID]) != i {
+					fail("a child of the root does not see its siblings", ch)
+					return
+				}
+			}
+		}
+	})
 }
